@@ -91,13 +91,19 @@ Plan interleave_generate(uint64_t base, const std::string &prop, uint64_t index,
     Rng rs = r.fork("scheduler"), rt = r.fork("tasks");
     int n = 2 + (int)rt.below(3);
     static const char *engines[] = {"sloppy", "sloppy", "nav", "nav", "tostring", "capacity", "traverse"};
+    // a quarter of the runs put the SAME kind of task on every thread: whatever one library function keeps in static storage is
+    // then used by several tasks at once
+    static const char *kinds[] = {"sloppy", "nav", "tostring", "capacity", "traverse"};
+    Rng rh = r.fork("homogeneous");
+    const char *same = rh.chance(1, 4) ? kinds[rh.below(5)] : nullptr;
     for (int k = 0; k < n; k++) {
-        const char *en = engines[rt.below(7)];
+        const char *en = same ? same : engines[rt.below(7)];
         const Engine *e = find_engine(en);
         Plan sp = e->generate(p.seed, "MIX", (uint64_t)k, tier);
         // keep the per-task cost small: capacity / tostring sweeps are pinned to a few capacities
         if (sp.engine == "capacity" || sp.engine == "tostring") sp.par["only_cap"] = (int64_t)rt.below(24);
         if (sp.engine == "capacity" && sp.ops.size() > 12) sp.ops.resize(12);
+        if (sp.engine == "capacity" && rh.chance(1, 2)) { sp.par["only_cap"] = 100000; sp.ops.push_back(mk(W_VERIFY)); if (sp.ops.size() > 2) sp.ops.insert(sp.ops.begin() + (long)(sp.ops.size() / 2), mk(W_VERIFY)); }   // everything fits: binson_writer_verify runs
         sp.note.clear();
         p.sub.push_back(sp);
     }
